@@ -1,10 +1,10 @@
 package harness
 
 import (
-	"testing/synctest"
-	"github.com/bool64/cache"
 	"fmt"
+	"github.com/bool64/cache"
 	"testing"
+	"testing/synctest"
 )
 
 // TestC18 attaches a stats tracker to backend workloads and compares totals at quiescence.
@@ -72,13 +72,23 @@ func addC18Conc(t *testing.T, e *Env, cf *CaseFile) {
 				delAll = delAll || o.Kind == "clear"
 			}
 
+			// cache_delete must count entries removed: a Delete that reports success must have removed one,
+			// which is what the per-slot linearization of the callers' results decides
+			explained := true
+
+			for _, h := range run.slotHistories() {
+				if _, verdict := linearize(h); verdict == "illegal" {
+					explained = false
+				}
+			}
+
 			st := []int64{run.Stats[cache.MetricWrite], run.Stats[cache.MetricDelete], run.Stats[cache.MetricHit],
 				run.Stats[cache.MetricMiss], run.Stats[cache.MetricExpired]}
 			seen := []int64{run.NWrite, run.NDelOK, run.NHit, run.NMiss, run.NExp}
 
-			cf.Add(fmt.Sprintf("C18C (mkC18C %s %s %s %s)", ZList(st), ZList(seen), Bool(expAll), Bool(delAll)),
+			cf.Add(fmt.Sprintf("C18C (mkC18C %s %s %s %s %s)", ZList(st), ZList(seen), Bool(expAll), Bool(delAll), Bool(explained)),
 				"conc/"+fl+"/"+conf.Mix, map[string]any{"conf": conf, "stats(write,delete,hit,miss,expired)": st,
-					"seen": seen, "how": "stress round of TestC08's runner with this configuration; totals compared at quiescence"},
+					"seen": seen, "results_explained": explained, "how": "stress round of TestC08's runner with this configuration; totals compared at quiescence"},
 				run.NDelOK > 0 && run.NHit > 0 && run.NMiss > 0)
 		}
 	}
